@@ -34,6 +34,10 @@ func init() {
 	firsts["C09"] = c09.FirstCalls
 	firsts["C10"] = c10.FirstCalls
 	firsts["C05"] = c05.FirstCalls
+	firsts["C20"] = c20.FirstCalls
+	firsts["C16"] = c16.FirstCalls
+	firsts["C17"] = c17.FirstCalls
+	firsts["C12"] = c12.FirstCalls
 	props["C01"] = prop{c01.Run, c01.Replay}
 	props["C02"] = prop{c02.Run, c02.Replay}
 	props["C03"] = prop{c03.Run, c03.Replay}
